@@ -166,6 +166,16 @@ def handle1 (op : String) (args : List Sexp) : Option String := do
   | "cmpf", [c, a, b, how, m, ch] =>
       let c ← cmpOf c; let a ← foperandOf a; let b ← foperandOf b; let how ← howOf how; let m ← dirOf m; let ch ← colHowOf4 ch
       pure ("ok " ++ bfoperandStr (cmpF c how m ch a b))
+  | "mmf", [k, a, b, how, m, ch] =>
+      let k ← mmOf k; let as ← foperandsOf a; let bs ← foperandsOf b; let how ← howOf how; let m ← dirOf m; let ch ← colHowOf4 ch
+      let ok := (as ++ bs).all fun x => match x with
+        | .df f => f.cols.length > 1
+        | _ => true
+      if !ok then Option.none                                   -- one-column frames: not modelled
+      else if mmRaises ch (as ++ bs) then pure "err ValueError"
+      else match mmListF k how m ch as bs with
+        | some r => pure ("ok " ++ foperandStr r)
+        | Option.none => pure "ok N"
   | "aggf", [g, xs, how, m, ch] =>
       let g ← aggOf g; let xs ← foperandsOf xs; let how ← howOf how; let m ← dirOf m; let ch ← colHowOf2 ch
       let ok := xs.all fun x => match x with
